@@ -385,6 +385,10 @@ func (e *runEnv) contextW(data map[string]absVal, wrapped []string) *plush.Conte
 		}
 		ctx.Set(k, materialize(v, e))
 	}
+	// a time.Time under the name tm (2024-03-05 10:30:00 UTC) unless the case binds tm itself
+	if _, ok := data["tm"]; !ok {
+		ctx.Set("tm", time.Date(2024, 3, 5, 10, 30, 0, 0, time.UTC))
+	}
 	// getx(): the value bound to x, handed to the template as a helper's result (no variable read)
 	if x, ok := data["x"]; ok && x.T != "gofn" {
 		gx := materialize(x, e)
